@@ -576,10 +576,26 @@ class cleanup_functools_wrapper(object):
             setattr(self.func, attr, val)
 
 
+def own_stored_signature(func):
+    """The signature modifiers.annotate stored on func, if any: func's
+    statement about its own parameters, unlike a __signature__ that
+    functools.wraps brought along from __wrapped__."""
+    try:
+        sig = vars(func)['__signature__']
+        depths = sig.sources['+depths']
+    except (TypeError, KeyError, AttributeError):
+        return None
+    wrapped = getattr(func, '__wrapped__', None)
+    if depths.get(func) != 0 or getattr(wrapped, '__signature__', None) is sig:
+        return None
+    return sig
+
+
 def autoforwards_function(func, args, kwargs):
+    sig = own_stored_signature(func)
     with cleanup_functools_wrapper(func):
         try:
-            sig = _signatures.signature(func)
+            sig = sig or _signatures.signature(func)
         except (ValueError, TypeError):
             raise UnknownForwards
     if not any_params_star(sig):
